@@ -318,8 +318,10 @@ def run(ctx):
         # node-aware communicators need np to be a multiple of PPN (raptor's Topology); vary the node shape
         ppn = ctx.rng.choice([d for d in (1, 2, 3, 4) if np_ % d == 0])
         ctx.count("np%d_ppn%d" % (np_, ppn))
+        # a launch normally takes seconds (quick) / a few minutes (thorough); a hang (ranks disagreeing on a conditional
+        # exchange never finish) is cut off, reported for the first case without output, and the rest is re-run
         res, crashed = fw.run_impl_lines(ctx, "drv_split", lines, nprocs=np_, env={"PPN": str(ppn)}, name="c13_np%d" % np_,
-                                         timeout=1500)
+                                         timeout=ctx.scale(60, 900), max_restarts=3)
         impl.update(res)
     # ---- model: same cases + sequential companions of the distributed CLJP/PMIS cases
     mlines = [c.line for c in cases]
@@ -368,7 +370,13 @@ def judge(ctx, c, impl, model, chk, glabels):
     ri = impl.get(c.cid); rm = model.get(c.cid)
     labs = glabels.get(c.cid)
     if not ri or labs is None or len(labs) != n:
-        ctx.signal("O", sig0 + ":crash", "implementation gave no labels: %s" % (str(ri)[:300],), case=c.line); return
+        if not ri:
+            # no output at all: the launch was cut off (hang) or gave up after repeated failures before reaching this case
+            ctx.count("no_output")
+            if ctx.dist.get("no_output", 0) <= 3:
+                ctx.signal("O", sig0 + ":no_output", "implementation produced no output for this case (hang / aborted launch)", case=c.line)
+            return
+        ctx.signal("O", sig0 + ":crash", "implementation gave no labels (crash or hang): %s" % (str(ri)[:300],), case=c.line); return
     # ---------------- O: verified checker on the implementation's labels
     rc = chk.get(c.cid)
     if not rc or rc[0][0] != "OK":
